@@ -1,7 +1,7 @@
 import StorageModel.C06.NoTrace
 /-
   C06: after a committed delete the id is gone from every map of the model, and re-creating it
-  yields an entity indexed by its new values only.
+  yields an entity indexed by its new values only, accepted or rejected by the other entities alone.
 -/
 namespace StorageModel.C06
 open StorageModel
@@ -9,66 +9,74 @@ open StorageModel.C03 (Map Id Err setInsert setErase setOf UI SI NEK uniqueAfter
 
 theorem deleteA_absent {s s' : State} {id : Id} (hi : Inv s) (h : deleteA s id = .ok s') :
     s'.a.lookup id = none ∧ s'.b = s.b := by
-  obtain ⟨_, e, s2, _, _, _, _, _, q4, _, _, _, _, rfl⟩ := deleteA_stages hi h
-  have hdom : ∀ b l, s2.mem.lookup b = some l → (s2.b.lookup b).isSome = true := by
-    intro b l hl
-    have := hi.link.memDom b l
-    rename_i q6 _ _
-    rw [q6] at hl; rw [q4]; exact this hl
-  obtain ⟨c1, _, _⟩ := clA_fold id ((s2.grp.lookup id).getD []) s2 hdom
-  rw [← cleanupLinksA_eq] at c1
-  unfold MemFrame at c1
-  refine ⟨by simp, ?_⟩
-  show (cleanupLinksA s2 id).b = s.b
-  rw [c1]; exact q4
+  obtain ⟨_, c2, c3, _⟩ := core_deleteA hi.toInvCore h
+  exact ⟨by rw [c2]; simp, c3⟩
 
-theorem deleteB_absent {s s' : State} {id : Id} (hi : Inv s) (h : deleteB s id = .ok s') :
-    s'.b.lookup id = none ∧ s'.a = s.a := by
-  obtain ⟨_, e, _, _, rfl⟩ := deleteB_ok h
-  obtain ⟨c1, _, _⟩ := clB_fold id ((s.mem.lookup id).getD [])
-    { s with uLabel := C03.uniqueBeforeDelete (e.label.getD []) s.uLabel } hi.link.grpDom
-  rw [← cleanupLinksB_eq] at c1
-  unfold GrpFrame at c1
-  refine ⟨by simp, ?_⟩
-  show (cleanupLinksB _ id).a = s.a
-  rw [c1]
+theorem deleteB_absent {s s' : State} {id : Id} (h : deleteB s id = .ok s') : s'.b.lookup id = none := by
+  obtain ⟨_, e, s1, _, _, _, rfl⟩ := deleteB_ok h
+  simp
 
-/-- in a consistent state an id that is not an entity occurs in no index, back-reference or link map -/
+/-- in a consistent state an id that is not an entity occurs in no index, back-reference, link or
+    ref-count map -/
 theorem absent_everywhere {s : State} {id : Id} (hi : Inv s) (hna : s.a.lookup id = none) (hnb : s.b.lookup id = none) :
     (∀ v, s.uName.lookup v ≠ some id) ∧ (∀ v, s.uAlias.lookup v ≠ some id) ∧ (∀ v, s.uCode.lookup v ≠ some id) ∧
     (∀ v, s.uLabel.lookup v ≠ some id) ∧ (∀ v, id ∉ (s.sRoles.lookup v).getD []) ∧
-    (∀ b, id ∉ (s.thg.lookup b).getD []) ∧ (∀ b, id ∉ (s.mem.lookup b).getD []) ∧ (∀ j, id ∉ (s.grp.lookup j).getD []) ∧
-    s.grp.lookup id = none ∧ s.mem.lookup id = none ∧ s.thg.lookup id = none := by
-  refine ⟨?_, ?_, ?_, ?_, ?_, ?_, ?_, ?_, ?_, ?_, ?_⟩
+    (∀ b, id ∉ (s.thg.lookup b).getD []) ∧
+    (∀ b, id ∉ (s.g.bwd.lookup b).getD []) ∧ (∀ j, id ∉ (s.g.fwd.lookup j).getD []) ∧
+    (∀ b, id ∉ (s.p.bwd.lookup b).getD []) ∧ (∀ j, id ∉ (s.p.fwd.lookup j).getD []) ∧
+    (∀ b, cnt s.rc.bwd b id = none) ∧ (∀ j, cnt s.rc.fwd j id = none) ∧
+    s.g.fwd.lookup id = none ∧ s.g.bwd.lookup id = none ∧ s.p.fwd.lookup id = none ∧ s.p.bwd.lookup id = none ∧
+    s.rc.fwd.lookup id = none ∧ s.rc.bwd.lookup id = none ∧ s.thg.lookup id = none := by
+  have ha : s.aEx id = false := by simp [State.aEx, hna]
+  have hb : s.bEx id = false := by simp [State.bEx, hnb]
+  have hc : s.cEx id = false := by simp [State.cEx, hna]
+  have none_of {α : Type} {o : Option α} {f : Bool} (hf : f = false) (h : ∀ x, o = some x → f = true) : o = none := by
+    cases o with
+    | none => rfl
+    | some x => have := h x rfl; rw [hf] at this; cases this
+  have g1 : s.g.fwd.lookup id = none := none_of ha (fun l hl => hi.g.fwdDom id l hl)
+  have g2 : s.g.bwd.lookup id = none := none_of hb (fun l hl => hi.g.bwdDom id l hl)
+  have p1 : s.p.fwd.lookup id = none := none_of hc (fun l hl => hi.p.fwdDom id l hl)
+  have p2 : s.p.bwd.lookup id = none := none_of hb (fun l hl => hi.p.bwdDom id l hl)
+  have r1 : s.rc.fwd.lookup id = none := none_of ha (fun l hl => hi.rc.fwdDom id l hl)
+  have r2 : s.rc.bwd.lookup id = none := none_of hb (fun l hl => hi.rc.bwdDom id l hl)
+  refine ⟨?_, ?_, ?_, ?_, ?_, ?_, ?_, ?_, ?_, ?_, ?_, ?_, g1, g2, p1, p2, r1, r2, ?_⟩
   · intro v h; obtain ⟨_, e, he, _⟩ := (hi.uName v id).1 h; rw [hna] at he; cases he
   · intro v h; obtain ⟨_, e, he, _⟩ := (hi.uAlias v id).1 h; rw [hna] at he; cases he
   · intro v h; obtain ⟨_, e, he, _⟩ := (hi.uCode v id).1 h; rw [hna] at he; cases he
   · intro v h; obtain ⟨_, e, he, _⟩ := (hi.uLabel v id).1 h; rw [hnb] at he; cases he
   · intro v h; obtain ⟨e, he, _⟩ := (hi.sRoles v id).1 h; rw [hna] at he; cases he
   · intro b h; obtain ⟨_, e, he, _⟩ := (hi.br b id).1 h; rw [hna] at he; cases he
-  · intro b h
-    have h1 := (hi.link.sym id b).2 h
-    cases hg : s.grp.lookup id with
-    | none => simp [hg] at h1
-    | some l => have := hi.link.grpDom id l hg; simp [hna] at this
-  · intro j h
-    have h1 := (hi.link.sym j id).1 h
-    cases hm : s.mem.lookup id with
-    | none => simp [hm] at h1
-    | some l => have := hi.link.memDom id l hm; simp [hnb] at this
-  · cases hg : s.grp.lookup id with
-    | none => rfl
-    | some l => have := hi.link.grpDom id l hg; simp [hna] at this
-  · cases hm : s.mem.lookup id with
-    | none => rfl
-    | some l => have := hi.link.memDom id l hm; simp [hnb] at this
-  · cases ht : s.thg.lookup id with
-    | none => rfl
-    | some l => have := hi.thgDom id l ht; simp [hnb] at this
+  · intro b h; have := (hi.g.sym id b).2 h; simp [g1] at this
+  · intro j h; have := (hi.g.sym j id).1 h; simp [g2] at this
+  · intro b h; have := (hi.p.sym id b).2 h; simp [p1] at this
+  · intro j h; have := (hi.p.sym j id).1 h; simp [p2] at this
+  · intro b; rw [← hi.rc.agree]; simp [cnt, r1]
+  · intro j; rw [hi.rc.agree]; simp [cnt, r2]
+  · exact none_of hb (fun l hl => hi.thgDom id l hl)
 
-/-- the entity table after a successful `A.Create` -/
-theorem createA_entity {s s' : State} {id : Id} {v : ValsA} (hi : Inv s) (h : createA s id v = .ok s') :
-    s'.a = s.a.insert id ⟨v.name, v.alias, setOf v.roles, v.owner, none⟩ ∧ s'.b = s.b := by
+/-- `fkAfter` writes back-reference buckets only -/
+theorem fkAfter_frame {ic : Bool} {old new : Bytes} {id : Id} {s s' : State} (hfk : fkAfter ic old new id s = .ok s') :
+    ThgFrame s s' := by
+  unfold fkAfter at hfk
+  simp only [bind, Except.bind, pure, Except.pure] at hfk
+  split at hfk
+  · cases hfk; rfl
+  · split at hfk
+    · split at hfk
+      · cases hfk
+      · next t ht =>
+        obtain ⟨_, rfl⟩ := backrefDel_eq ht
+        split at hfk
+        · obtain ⟨_, rfl⟩ := backrefAdd_eq hfk; rfl
+        · cases hfk; rfl
+    · split at hfk
+      · obtain ⟨_, rfl⟩ := backrefAdd_eq hfk; rfl
+      · cases hfk; rfl
+
+/-- the entity tables after a successful `A.Create` -/
+theorem createA_entity {s s' : State} {id : Id} {v : ValsA} (h : createA s id v = .ok s') :
+    s'.a = s.a.insert id ⟨v.name, v.alias, setOf v.roles, v.owner, v.dep, none⟩ ∧ s'.b = s.b := by
   unfold createA at h
   split at h
   · cases h
@@ -78,68 +86,62 @@ theorem createA_entity {s s' : State} {id : Id} {v : ValsA} (hi : Inv s) (h : cr
       split at h
       · cases h
       · next s2 hsl =>
-        have hl1 : LinkInv ({ s with hasA := true, a := s.a.insert id ⟨v.name, v.alias, setOf v.roles, v.owner, none⟩ } : State) :=
-          ⟨hi.link.sym, hi.link.memDom, by
-            intro j l hj; simp only [Map.lookup_insert]; split
-            · simp
-            · exact hi.link.grpDom j l hj⟩
-        obtain ⟨_, l2, _, _⟩ := setLinks_pres hl1 (by simp) hsl
-        obtain ⟨_, _, f3, f4, _⟩ := l2.fields
-        obtain ⟨un, ua, sr, _, _, _, hfk⟩ := afterUpdateA_ok h
-        -- fkAfter changes `thg` only
-        have hfr : ThgFrame ({ s2 with uName := un, uAlias := ua, sRoles := sr } : State) s' := by
-          unfold fkAfter at hfk
-          simp only [bind, Except.bind, pure, Except.pure] at hfk
-          split at hfk
-          · cases hfk; rfl
-          · split at hfk
-            · split at hfk
-              · cases hfk
-              · next t ht =>
-                obtain ⟨_, rfl⟩ := backrefDel_eq ht
-                split at hfk
-                · obtain ⟨_, rfl⟩ := backrefAdd_eq hfk; rfl
-                · cases hfk; rfl
-            · split at hfk
-              · obtain ⟨_, rfl⟩ := backrefAdd_eq hfk; rfl
-              · cases hfk; rfl
+        obtain ⟨g', _, rfl⟩ := setGroups_ok hsl
+        obtain ⟨un, ua, sr, _, _, _, hfk, _⟩ := afterUpdateA_ok h
+        have hfr := fkAfter_frame hfk
         obtain ⟨_, _, g3, g4, _⟩ := hfr.fields
-        exact ⟨by rw [g3]; exact f3, by rw [g4]; exact f4⟩
+        exact ⟨g3, g4⟩
 
+/-- `A.Create` touches neither the ref-count buckets nor the child store's link buckets -/
+theorem createA_rc {s s' : State} {id : Id} {v : ValsA} (h : createA s id v = .ok s') : s'.rc = s.rc ∧ s'.p = s.p := by
+  unfold createA at h
+  split at h
+  · cases h
+  · split at h
+    · cases h
+    · simp only [bind, Except.bind] at h
+      split at h
+      · cases h
+      · next s2 hsl =>
+        obtain ⟨g', _, rfl⟩ := setGroups_ok hsl
+        obtain ⟨un, ua, sr, _, _, _, hfk, _⟩ := afterUpdateA_ok h
+        obtain ⟨_, _, _, _, _, g6, g7, _⟩ := (fkAfter_frame hfk).fields
+        exact ⟨g7, g6⟩
 
-theorem linkAB_ok_iff {s : State} {a b : Id} : (∃ s', linkAB s a b = .ok s') ↔ (s.b.lookup b).isSome = true := by
-  unfold linkAB
+/-! ### acceptance of a (re-)creation -/
+
+namespace LinkPair
+
+theorem link_ok_iff {p : LinkPair} {bEx : Id → Bool} {a b : Id} : (∃ p', p.link bEx a b = .ok p') ↔ bEx b = true := by
+  unfold link
   simp only
-  cases hb : s.b.lookup b <;> simp
+  cases bEx b <;> simp
 
-theorem linkAll_ok_iff (a : Id) (ks : List Id) {s : State} (hi : LinkInv s) (ha : (s.a.lookup a).isSome = true) :
-    (∃ s', linkAll a ks s = .ok s') ↔ ∀ k, k ∈ ks → (s.b.lookup k).isSome = true := by
-  induction ks generalizing s with
+theorem linkAll_ok_iff {aEx bEx : Id → Bool} (a : Id) (ks : List Id) {p : LinkPair} (hi : LinkInv p aEx bEx)
+    (ha : aEx a = true) : (∃ p', linkAll bEx a ks p = .ok p') ↔ ∀ k, k ∈ ks → bEx k = true := by
+  induction ks generalizing p with
   | nil => simp [linkAll]
   | cons k rest ih =>
     simp only [linkAll, List.mem_cons, forall_eq_or_imp]
-    cases hk : linkAB s a k with
+    cases hk : p.link bEx a k with
     | error e =>
-      have : ¬ (s.b.lookup k).isSome = true := fun h => by
-        obtain ⟨s', hs'⟩ := linkAB_ok_iff.2 h; rw [hk] at hs'; cases hs'
+      have : ¬ bEx k = true := fun h => by
+        obtain ⟨p', hp'⟩ := link_ok_iff.2 h; rw [hk] at hp'; cases hp'
       simp [this]
-    | ok s1 =>
-      obtain ⟨h1, h2, _, _⟩ := linkAB_pres hi ha hk
-      have hb : s1.b = s.b := frame_b h2
-      have ha1 : (s1.a.lookup a).isSome = true := by rw [frame_a h2]; exact ha
-      have hkb : (s.b.lookup k).isSome = true := linkAB_ok_iff.1 ⟨s1, hk⟩
+    | ok p1 =>
+      obtain ⟨h1, hkb⟩ := link_pres hi ha hk
       simp only [hkb, true_and]
-      rw [ih h1 ha1, hb]
+      exact ih h1
 
-theorem setLinks_fresh_ok_iff {s : State} {a : Id} {req : List Id} (hi : LinkInv s) (ha : (s.a.lookup a).isSome = true)
-    (hg : s.grp.lookup a = none) :
-    (∃ s', setLinks s a req = .ok s') ↔ ∀ k, k ∈ req → (s.b.lookup k).isSome = true := by
+theorem setLinks_fresh_ok_iff {p : LinkPair} {aEx bEx : Id → Bool} {a : Id} {req : List Id} (hi : LinkInv p aEx bEx)
+    (ha : aEx a = true) (hg : p.fwd.lookup a = none) :
+    (∃ p', p.setLinks bEx a req = .ok p') ↔ ∀ k, k ∈ req → bEx k = true := by
   unfold setLinks
   simp only [hg, Option.getD_none, List.filter_nil, List.foldl_nil, List.contains_nil, Bool.not_false]
   have hft : List.filter (fun _ => true) (setOf req) = setOf req := by simp
   rw [hft]
-  have hi0 : LinkInv ({ s with grp := s.grp.insert a [] } : State) := by
-    refine ⟨?_, hi.memDom, ?_⟩
+  have hi0 : LinkInv ({ p with fwd := p.fwd.insert a [] } : LinkPair) aEx bEx := by
+    refine ⟨?_, hi.bwdDom, ?_⟩
     · intro j b
       have := hi.sym j b
       simp only [Map.lookup_insert]
@@ -148,10 +150,11 @@ theorem setLinks_fresh_ok_iff {s : State} {a : Id} {req : List Id} (hi : LinkInv
       · simpa [hj] using this
     · intro j l; simp only [Map.lookup_insert]; split
       · next hj => subst hj; intro _; exact ha
-      · exact hi.grpDom j l
+      · exact hi.fwdDom j l
   rw [linkAll_ok_iff a (setOf req) hi0 ha]
   simp only [C03.mem_setOf]
 
+end LinkPair
 
 theorem uniqueAfter_create_ok_iff {E : Type} {f : E → Bytes} {ents : Map Id E} {idx : Map Bytes Id} {id : Id} {new : Bytes}
     {nullable : Bool} (hui : UI f ents idx) (hfresh : ents.lookup id = none) :
@@ -181,54 +184,64 @@ theorem setAfter_create_ok_iff {new : List Bytes} {id : Id} {idx : Map Bytes (Li
     | error x => exact absurd (C03.setAfter_err h (by simp)).2 hn
 
 theorem fkAfter_create_ok_iff {s : State} {id : Id} {new : Bytes} :
-    (∃ s', fkAfter true [] new id s = .ok s') ↔ (new = [] ∨ (s.b.lookup new).isSome = true) := by
+    (∃ s', fkAfter true [] new id s = .ok s') ↔ (new = [] ∨ s.bEx new = true) := by
   unfold fkAfter
   simp only [Bool.not_true, Bool.false_and, Bool.false_eq_true, if_false, ne_eq, not_true_eq_false, bind, Except.bind,
     pure, Except.pure]
   by_cases hn : new = []
   · simp [hn]
   · simp only [hn, not_false_eq_true, if_true, false_or]
-    unfold backrefAdd
+    unfold backrefAdd State.bEx
     cases s.b.lookup new <;> simp
+
+theorem fkAfter_create_b {s s' : State} {id : Id} {new : Bytes} (h : fkAfter true [] new id s = .ok s') : s'.b = s.b := by
+  unfold fkAfter at h
+  simp only [Bool.not_true, Bool.false_and, Bool.false_eq_true, if_false, ne_eq, not_true_eq_false, bind, Except.bind,
+    pure, Except.pure] at h
+  split at h
+  · obtain ⟨_, rfl⟩ := backrefAdd_eq h; rfl
+  · cases h; rfl
+
+theorem depAfter_create_ok_iff {s : State} {new : Bytes} :
+    (∃ s', depAfter true [] new s = .ok s') ↔ (new = [] ∨ s.bEx new = true) := by
+  unfold depAfter
+  simp only [Bool.not_true, Bool.false_and, Bool.false_eq_true, if_false, ne_eq]
+  by_cases hn : new = []
+  · simp [hn]
+  · simp only [hn, not_false_eq_true, if_true, false_or]
+    cases s.bEx new <;> simp
 
 /-- what decides whether `A.Create id v` is accepted: the *other* entities only -/
 def AcceptableA (s : State) (id : Id) (v : ValsA) : Prop :=
   v.name ≠ [] ∧ ¬ HeldByOther (fun (e : EntA) => e.name) s.a id v.name ∧
   (v.alias.getD [] = [] ∨ ¬ HeldByOther (fun (e : EntA) => e.alias.getD []) s.a id (v.alias.getD [])) ∧
   [] ∉ setOf v.roles ∧
-  (∀ g, g ∈ v.groups → (s.b.lookup g).isSome = true) ∧
-  (v.owner.getD [] = [] ∨ (s.b.lookup (v.owner.getD [])).isSome = true)
+  (∀ g, g ∈ v.groups → s.bEx g = true) ∧
+  (v.owner.getD [] = [] ∨ s.bEx (v.owner.getD []) = true) ∧
+  (v.dep.getD [] = [] ∨ s.bEx (v.dep.getD []) = true)
 
 theorem createA_accepts_iff {s : State} {id : Id} {v : ValsA} (hi : Inv s) (hid : id ≠ [])
     (hna : s.a.lookup id = none) : (∃ s', createA s id v = .ok s') ↔ AcceptableA s id v := by
-  have hg : s.grp.lookup id = none := by
-    cases hgl : s.grp.lookup id with
+  have hg : s.g.fwd.lookup id = none := by
+    cases hgl : s.g.fwd.lookup id with
     | none => rfl
-    | some l => have := hi.link.grpDom id l hgl; simp [hna] at this
-  have hl1 : LinkInv ({ s with hasA := true, a := s.a.insert id ⟨v.name, v.alias, setOf v.roles, v.owner, none⟩ } : State) :=
-    ⟨hi.link.sym, hi.link.memDom, by
-      intro j l hj; simp only [Map.lookup_insert]; split
-      · simp
-      · exact hi.link.grpDom j l hj⟩
-  have hlinks := setLinks_fresh_ok_iff (req := v.groups) hl1 (by simp) hg
-  simp only at hlinks
+    | some l => have := hi.g.fwdDom id l hgl; simp [State.aEx, hna] at this
+  have hg1 : LinkInv s.g ({ s with hasA := true, a := s.a.insert id ⟨v.name, v.alias, setOf v.roles, v.owner, v.dep, none⟩ } : State).aEx ({ s with hasA := true, a := s.a.insert id ⟨v.name, v.alias, setOf v.roles, v.owner, v.dep, none⟩ } : State).bEx :=
+    hi.g.mono (aEx_insert_mono rfl) (fun _ h => h)
+  have hlinks := LinkPair.setLinks_fresh_ok_iff (req := v.groups) hg1 (aEx_insert_self rfl) hg
   unfold createA AcceptableA
-  simp only [hid, if_false, hna, Option.isSome_none, Bool.false_eq_true, bind, Except.bind]
-  cases hsl : setLinks ({ s with hasA := true, a := s.a.insert id ⟨v.name, v.alias, setOf v.roles, v.owner, none⟩ } : State)
+  simp only [hid, if_false, hna, Option.isSome_none, Bool.false_eq_true, bind, Except.bind, setGroups, pure, Except.pure]
+  cases hsl : s.g.setLinks ({ s with hasA := true, a := s.a.insert id ⟨v.name, v.alias, setOf v.roles, v.owner, v.dep, none⟩ } : State).bEx
       id v.groups with
   | error x =>
-    have hno : ¬ ∀ k, k ∈ v.groups → (s.b.lookup k).isSome = true := by
-      intro h; obtain ⟨s', hs'⟩ := hlinks.2 h; rw [hsl] at hs'; cases hs'
+    have hno : ¬ ∀ k, k ∈ v.groups → s.bEx k = true := by
+      intro h; obtain ⟨p', hp'⟩ := hlinks.2 h; rw [hsl] at hp'; cases hp'
     simp only [false_iff, reduceCtorEq, exists_false]
     intro h; exact hno h.2.2.2.2.1
-  | ok s2 =>
-    have hgr : ∀ k, k ∈ v.groups → (s.b.lookup k).isSome = true := hlinks.1 ⟨s2, hsl⟩
-    obtain ⟨_, l2, _, _⟩ := setLinks_pres hl1 (by simp) hsl
-    obtain ⟨f1, f2, f3, f4, f5, f6, f7, f8, f9, f10⟩ := l2.fields
-    have hlk : s2.a.lookup id = some ⟨v.name, v.alias, setOf v.roles, v.owner, none⟩ := by rw [f3]; simp
-    simp only [afterUpdateA, hlk, evName, evAlias, evRoles, evOwner, Captured.none, bind, Except.bind]
-    rw [f6, f7, f10]
-    simp only
+  | ok g' =>
+    have hgr : ∀ k, k ∈ v.groups → s.bEx k = true := hlinks.1 ⟨g', hsl⟩
+    simp only [afterUpdateA, Map.lookup_insert, if_true, evName, evAlias, evRoles, evOwner, evDep, Captured.none, bind,
+      Except.bind]
     have hN := uniqueAfter_create_ok_iff (f := fun (e : EntA) => e.name) (new := v.name) (nullable := false) (id := id)
       hi.uName hna
     have hA := uniqueAfter_create_ok_iff (f := fun (e : EntA) => e.alias.getD []) (new := v.alias.getD [])
@@ -268,12 +281,9 @@ theorem createA_accepts_iff {s : State} {id : Id} {v : ValsA} (hi : Inv s) (hid 
         | ok sr =>
           have hr' := hR.1 ⟨sr, hsr⟩
           simp only
-          rw [fkAfter_create_ok_iff]
-          simp only
-          rw [f4]
-          constructor
-          · intro hf
-            refine ⟨?_, ?_, ?_, hr', hgr, hf⟩
+          have base : v.name ≠ [] ∧ ¬ HeldByOther (fun (e : EntA) => e.name) s.a id v.name ∧
+              (v.alias.getD [] = [] ∨ ¬ HeldByOther (fun (e : EntA) => e.alias.getD []) s.a id (v.alias.getD [])) := by
+            refine ⟨?_, ?_, ?_⟩
             · rcases hn' with ⟨_, h⟩ | ⟨h, _⟩
               · cases h
               · exact h
@@ -283,12 +293,27 @@ theorem createA_accepts_iff {s : State} {id : Id} {v : ValsA} (hi : Inv s) (hid 
             · rcases ha' with ⟨h, _⟩ | ⟨_, h⟩
               · exact Or.inl h
               · exact Or.inr h
-          · intro h; exact h.2.2.2.2.2
-
+          cases hfk : fkAfter true [] (v.owner.getD []) id ({ s with hasA := true, a := s.a.insert id ⟨v.name, v.alias, setOf v.roles, v.owner, v.dep, none⟩, g := g', uName := un, uAlias := ua, sRoles := sr } : State) with
+          | error x =>
+            have : ¬ (v.owner.getD [] = [] ∨ s.bEx (v.owner.getD []) = true) := by
+              intro h
+              obtain ⟨t, ht⟩ := (fkAfter_create_ok_iff (id := id) (s := ({ s with hasA := true, a := s.a.insert id ⟨v.name, v.alias, setOf v.roles, v.owner, v.dep, none⟩, g := g', uName := un, uAlias := ua, sRoles := sr } : State))).2 h
+              rw [hfk] at ht; cases ht
+            simp only [false_iff, reduceCtorEq, exists_false]
+            intro h; exact this h.2.2.2.2.2.1
+          | ok s1 =>
+            have ho := (fkAfter_create_ok_iff (id := id)).1 ⟨s1, hfk⟩
+            have hb0 := fkAfter_create_b hfk
+            have hb1 : s1.bEx = s.bEx := bEx_congr hb0
+            simp only
+            rw [depAfter_create_ok_iff, hb1]
+            constructor
+            · intro hd; exact ⟨base.1, base.2.1, base.2.2, hr', hgr, ho, hd⟩
+            · intro h; exact h.2.2.2.2.2.2
 
 theorem acceptableA_congr {s t : State} {id : Id} {v : ValsA} (ha : ∀ j, t.a.lookup j = s.a.lookup j)
     (hb : ∀ j, t.b.lookup j = s.b.lookup j) : AcceptableA t id v ↔ AcceptableA s id v := by
-  unfold AcceptableA HeldByOther
+  unfold AcceptableA HeldByOther State.bEx
   simp only [ha, hb]
 
 end StorageModel.C06
